@@ -11,6 +11,8 @@
 // the hop, so the second node derives the endpoint from Host and serves a
 // different endpoint than the one the entry node routed.
 //
+// Fails on the tree before the repair a3abc8b (e.g. b77c840), passes from it on.
+//
 // Copy to /repo/server/proxy/zz_f6_test.go and run: go test -run TestF6 ./server/proxy/
 package proxy
 
